@@ -525,8 +525,11 @@ class MQTTBaseProtocol(Protocol):
     def connectionLost(self, reason):
         log.debug("--- Connection to MQTT Broker lost")
         self._stopKeepalive()
-        self.doConnectionLost(reason)
+        # The connection has gone: go idle before pending requests are failed, so
+        # that an errback that publishes again is refused instead of being written
+        # to the transport that has just been lost.
         self.state = self.IDLE
+        self.doConnectionLost(reason)
         # The disconnect callback is invoked in another reactor loop cycle
         # Otherwise, the reconnection attempt happens before connection cleanup
         # which obviopusly it si not what we want.
